@@ -1,6 +1,7 @@
 import EdpVerif.Generated.Misc
 import EdpVerif.Lemmas.PidAlloc
 import EdpVerif.Lemmas.RefCounter
+import EdpVerif.Lemmas.NodeIds
 /-
 C16 — allocated pids and references are unique under any interleaving.
 Property theorems only; the model is EdpVerif/Impl/PidAlloc.lean and EdpVerif/Impl/RefCounter.lean, helper lemmas
@@ -350,6 +351,96 @@ theorem C16_refs_seq_period (c0 cr i : Nat) : seqRef c0 cr (i + U32) = seqRef c0
   simp only [seqRef, h0, h1, h2]
 
 end Refs
+
+section NodeLevel
+open Edp.Impl.NodeIds
+
+/-- **Every identifier a node makes carries the creation in force when it was made** — for EVERY history of `start`
+(with whatever EPMD answers, including failure and repeated attempts), `spawn`, the `allocate()` of `send`/`rpc`,
+`make_reference` and remote `unlink`s on a fresh node: whichever call comes next, the pid or reference it makes carries
+`inForce` of the history so far — the creation EPMD assigned at the one successful `start`, and 1 before it.  The node
+keeps the creation in two places (`Node.creation` for references, the allocator's for pids); the invariant of the proof
+is that they never differ, so a pid and a reference made back to back carry the same creation. -/
+theorem C16_node_identifiers_carry_the_creation_in_force (pre : List Op) (op : Op) (c : Nat)
+    (h : (step (run NSt.new pre).2 op).1.creation? = some c) : c = inForce false 1 pre := by
+  obtain ⟨hs, hc⟩ := run_inv pre NSt.new rfl
+  rw [step_out_creation _ op hs c h, hc]
+  rfl
+
+/-- a refused `spawn`, a failing EPMD, a start that assigns creation 7, a second `start` that is refused: the pid and the
+reference made afterwards carry 7, the reference made before carries 1 -/
+example : (run NSt.new [.spawn, .makeRef, .start none, .start (some 9)]).1 =
+      [.refused, .ref ⟨1, 0, 1, 2⟩, .refused, .refused] ∧
+    (run NSt.new [.makeRef, .start (some 7), .start (some 9), .spawn, .makeRef, .allocate]).1 =
+      [.ref ⟨1, 0, 1, 2⟩, .startOk, .refused, .pid (.ok ⟨1, 0, 7⟩), .ref ⟨7, 3, 4, 5⟩, .pid (.ok ⟨2, 0, 7⟩)] := by
+  decide
+
+/-- the creation changes at most once in a node's life: once a `start` has been attempted, no later call changes it -/
+theorem C16_node_creation_fixed_after_start (c : Nat) (r : List Op) : inForce true c r = c := inForce_started c r
+
+/-- the exact creation under concurrency: in the sequential history a schedule is equivalent to (`C16_linearizable`),
+an allocation that follows the operations `pre` carries the creation stored LAST in `pre` (the allocator's initial one
+when there was no `set_creation`) — "the value in force" is the latest store before the call's linearisation point -/
+theorem C16_creation_is_the_latest_store (s0 : PidAlloc.Sh) (pre : List PidAlloc.Op) (p : PidAlloc.Pid)
+    (h : (PidAlloc.alloc (PidAlloc.seqRun s0 pre).2).1 = .ok p) :
+    p.creation = ((PidAlloc.Op.creations pre).getLast?).getD s0.creation := by
+  rw [alloc_pid_creation _ p h, PidAlloc.seqRun_state_creation]
+
+example : (PidAlloc.alloc (PidAlloc.seqRun (PidAlloc.Sh.new 1) [.setCreation 5, .alloc, .setCreation 6]).2).1 =
+    .ok ⟨2, 0, 6⟩ := by decide
+
+/-- every identifier of the local node comes from the allocator or from `make_reference` (regenerated from the source on
+every run): in edp_client and edp_node an `ExternalPid` is constructed only inside `PidAllocator::allocate`, an
+`ExternalReference` only inside `Node::make_reference`; `allocate()` is called by `spawn`, `send_remote` and the rpc
+call, `make_reference()` by `monitor`; a creation is stored only by `set_creation` and by `Node::start` (which stores
+both copies).  A second place that makes identifiers, or one that changes the creation, fails this theorem. -/
+theorem C16_identifiers_are_made_by_the_modelled_code_only :
+    Gen.ID_CONSTRUCTOR_SITES =
+        ["edp_client/pid_allocator.rs:allocate:ExternalPid::new", "edp_client/pid_allocator.rs:allocate:ExternalPid::new",
+         "edp_node/node.rs:make_reference:ExternalReference::new"]
+      ∧ Gen.ALLOCATE_CALL_SITES =
+        ["edp_node/node.rs:spawn", "edp_node/node.rs:send_remote", "edp_node/node.rs:rpc_call_raw_with_timeout"]
+      ∧ Gen.MAKE_REFERENCE_CALL_SITES = ["edp_node/node.rs:monitor"]
+      ∧ Gen.CREATION_STORE_SITES =
+        ["edp_client/pid_allocator.rs:set_creation:store", "edp_node/node.rs:start:store",
+         "edp_node/node.rs:start:set_creation"] := by decide
+
+/-- **Pids handed out by a node are pairwise distinct over every history of `allocate`/`spawn`/`start`** (and
+`make_reference`, `unlink`, refused and failing `start`s), already as (id, serial) — hence as (id, serial, creation)
+triples WHATEVER creation EPMD assigns, in particular when it assigns the placeholder creation 1 of an unstarted node
+again.  The condition the code relies on is exactly the one the model's `start` step states and `run_pidKeys` uses:
+`start` stores the creation (`set_creation`) and leaves `next_id` / `next_serial` alone, so the numbers of a history
+are those of ONE uninterrupted row of allocations (`C16_seq_injective_any`), inside the window of `MAX·2^32` calls. -/
+theorem C16_node_pids_unique_across_start (s : NSt) (ops : List Op)
+    (hn : (pidKeys (run s ops).1).length ≤ PidAlloc.MAXP * PidAlloc.U32) :
+    ((pidKeys (run s ops).1).filterMap id).Nodup := by
+  rw [run_pidKeys ops s]
+  exact PidAlloc.seq_keys_nodup s.alloc _ hn
+
+/-- a pid made before `start` (by an rpc call), EPMD assigning creation 1, then `spawn` and another call -/
+example : pidKeys (run NSt.new [.allocate, .start (some 1), .spawn, .makeRef, .allocate]).1 =
+      [some (1, 0), some (2, 0), some (3, 0)] ∧
+    (run NSt.new [.allocate, .start (some 1), .spawn]).1 = [.pid (.ok ⟨1, 0, 1⟩), .startOk, .pid (.ok ⟨2, 0, 1⟩)] := by
+  decide
+
+/-- the condition is necessary: a `start` that REBUILT the allocator (`PidAllocator::new(name, creation)`) instead of
+storing the creation would, when EPMD assigns creation 1, hand the pid made before `start` out again -/
+theorem C16_rebuilding_the_allocator_in_start_would_repeat_a_pid :
+    (step { (step NSt.new .allocate).2 with started := true, creation := 1, alloc := PidAlloc.Sh.new 1 } .spawn).1 =
+      (step NSt.new .allocate).1 := by decide
+
+/-- the allocator is built once and its field is written nowhere else (regenerated from the source on every run): one
+`PidAllocator::new` in edp_client + edp_node (in `Node::with_hidden`), the `pid_allocator` field is only initialised in
+that constructor and never assigned, and the raw-counter accessors (`next_id_test_only`, `next_serial_test_only`) are
+not used outside tests.  With `C16_counters_touched_only_by_the_modelled_steps` and the creation stores of
+`C16_identifiers_are_made_by_the_modelled_code_only`: nothing but `allocate()` moves the numbers, nothing but
+`set_creation` moves the allocator's creation. -/
+theorem C16_allocator_is_built_once_and_never_replaced :
+    Gen.PID_ALLOCATOR_NEW_SITES = ["edp_node/node.rs:with_hidden"]
+      ∧ Gen.PID_ALLOCATOR_FIELD_WRITES = ["edp_node/node.rs:with_hidden:let", "edp_node/node.rs:with_hidden:init"]
+      ∧ Gen.RAW_COUNTER_ACCESSOR_USES = [] := by decide
+
+end NodeLevel
 
 /-- The shared state of the allocator model IS the state the code keeps (regenerated from the source on every run): the two
 counters, the creation and the lock of `PidAllocator`; `Node` keeps one reference counter and one creation; nothing
